@@ -73,6 +73,23 @@ PROPS = {
         "consuming the observed attempt sequence of the real plugins; ties are "
         "compared as sets, documented ambiguities abstain and are counted.",
     },
+    "C09": {
+        "flavours": ["asan"],
+        "runs": {"quick": 4000, "thorough": 150000},
+        "rule": "one case = 1-8 equally preferred siblings with statistics "
+        "from the full value range (0, page size, 2^31+-4096, 2^32+-4096, "
+        "2^40, 2^55, multiples of 256 MiB for ties, log-uniform), MemTotal / "
+        "SwapTotal above 2^31 and 2^32, one real kill plugin with generated "
+        "(also fractional) parameters, 2-5 ticks of usage / pgscan / io "
+        "history; non-trivial = at least one victim chosen; distinct = "
+        "distinct event-log hash",
+        "level_text": "seeded exploration; oracle = independent reference "
+        "ranking in exact integer / long double arithmetic (DESIGN.md "
+        "Appendix B) deciding the first choice and the never-chosen clauses, "
+        "with the stated tolerances; verdicts that depend on a documented "
+        "ambiguity (ties, percentile cut where nearest-rank readings differ, "
+        "default threshold unit) abstain and are counted.",
+    },
     "C02": {
         "flavours": ["asan"],
         "runs": {"quick": 4000, "thorough": 150000},
